@@ -19,15 +19,19 @@ from vlib import physgen as pg  # noqa: E402
 
 ID = "C10"
 LEVEL = "exploration"
+NEEDS_SIMMPI = True
+KEY_RIDX = "C10:gridStep/radial-index-not-passed"
 RULE = ("seeded set-ups: n_theta 4-24, n_z 7-24, theta-spline degree 1-5 (3 = uniform-cubic fast path), rotational "
         "transform 0, +-0.8 or r-dependent (caller supplied), R0 1-10, dt and v of either sign with displacements of a "
         "fraction of a cell, several cells and more than one period, on-node feet; every (r,v) index of the set-up; random "
         "f.  FluxSurfaceAdvection.step compared with the independent formula on every node; identities (constants, "
         "linearity, commutation with circular z-shifts, exact circular shift for whole-cell displacement without twist) on "
-        "the real code.  A class is (spline path/degree, iota class, sign, |displacement| class, on-node?, monitor).")
+        "the real code.  Grid level: FluxSurfaceAdvection.gridStep on process grids (1,1)...(3,2) with a random global field, "
+        "every rank's block compared with the formula applied with the GLOBAL radius and velocity of each surface.  A class "
+        "is (spline path/degree, iota class, sign, |displacement| class, on-node?, monitor) or (grid, split, iota class).")
 ASSUMPTIONS = ["reference theta-spline: dense periodic collocation solve + Cox-de Boor (vlib.refmath)",
                "tolerance 100*eps*kappa*|f|*(Lebesgue sum*(1+|d|/dz) + angle rounding term)"]
-REQUIRED_EVENTS = {"nodes_compared": 1, "identity_checks": 1, "multi_period_cases": 1, "on_node_cases": 1}
+REQUIRED_EVENTS = {"nodes_compared": 1, "identity_checks": 1, "multi_period_cases": 1, "on_node_cases": 1, "grid_surfaces_compared": 1}
 C = 100.0
 
 
@@ -43,6 +47,12 @@ def gen_cases(tier, seed):
         cases.append({"kind": "step", "deg": deg, "nth": nth, "nz": nz, "nr": rng.randint(2, 4), "nv": rng.randint(2, 5), "iota": iota,
                       "R0": rng.uniform(1, 10), "disp": rng.choice(["sub", "multi", "period", "node", "tiny"]), "sign": rng.choice([1, -1]),
                       "seed": rng.randrange(1 << 30), "cost": nth * nth * nz})
+    grids = [(1, 1), (2, 1), (1, 2), (2, 2), (3, 1), (1, 3), (2, 3), (3, 2)]
+    for rep in range(1 if tier == "quick" else 10):
+        for (p0, p1) in grids:
+            for iota in (0.0, 0.8):
+                cases.append({"kind": "grid", "nprocs": [p0, p1], "iota": iota, "npts": [rng.choice([5, 6, 7]), rng.choice([5, 6, 8]), rng.choice([7, 8, 9]), rng.choice([6, 7, 8])],
+                              "seed": rng.randrange(1 << 30), "cost": 3000})
     return cases
 
 
@@ -77,6 +87,8 @@ def run_case(case):
     from pygyro.advection import advection as adv
     from pygyro.model.layout import Layout
     paths.assert_repo(adv)
+    if case["kind"] == "grid":
+        return _grid_case(case, spl, adv)
     rs = np.random.RandomState(case["seed"] % (1 << 31))
     rng = random.Random(case["seed"])
     nr, nth, nz, nv, deg = case["nr"], case["nth"], case["nz"], case["nv"], case["deg"]
@@ -160,3 +172,64 @@ def run_case(case):
                                       what="identity '%s' violated by %.3g (tol %.3g); displacement %.4g cells, iota=%s" % (nm, e, t2, d / dz, case["iota"]),
                                       witness=dict(wit0, rIdx=ri, vIdx=vi))
     return result(HELD, cls=sorted(cls), events=ev, n_eval=ev["nodes_compared"])
+
+
+def _grid_case(case, spl, adv):
+    from mpi4py import MPI
+    from vlib import simrun
+    npts, nprocs, iota = case["npts"], case["nprocs"], case["iota"]
+    if not simrun.admissible(npts, nprocs):
+        return result(SKIP, what="process grid not admissible")
+    P = nprocs[0] * nprocs[1]
+    c = simrun.small_constants(npts, iota=iota, seed=case["seed"] % 1000)
+    rs = np.random.RandomState(case["seed"] % (1 << 31))
+    F0 = rs.standard_normal(npts)
+    dt = 0.9
+
+    def prog(rank):
+        comm = MPI.COMM_WORLD
+        sim = simrun.Sim(comm, c, nprocs, layout='flux_surface', save=False, with_phi=False)
+        sim.scatter(sim.f, F0)
+        op = adv.FluxSurfaceAdvection(sim.eta, sim.f.get2DSpline(), sim.f.getLayout('flux_surface'), dt, c)
+        op.gridStep(sim.f)
+        return sim.block(sim.f)
+
+    w = MPI.run_world(P, prog, schedule="random", seed=case["seed"], timeout=800)
+    ev = dict(w.events)
+    split = ("r" if nprocs[0] > 1 else "") + ("v" if nprocs[1] > 1 else "") or "none"
+    base = "grid/split-%s/iota-%s" % (split, "zero" if iota == 0 else "nonzero")
+    err = w.first_error()
+    wit = {"case": case}
+    if err is not None:
+        wit["traceback"] = (w.tracebacks[err[0]] or "")[-2500:]
+        return result(VIOL, cls=[base + "/exception"], events=ev, key="C10:grid-exception:%s" % type(err[1]).__name__,
+                      what="rank %d raised %r on process grid %r" % (err[0], err[1], nprocs), witness=wit)
+    G, cover = simrun.assemble(list(w.results), tuple(npts))
+    if not (cover == 1).all():
+        return result(VIOL, cls=[base], events=ev, key="C10:grid-coverage", what="blocks do not tile the global grid", witness=wit)
+    eta, bs, _ = pg.make_space(spl, c.npts, c.splineDegrees, pg.std_domain(c))
+    thetaref = pg.PeriodicSplineRef(bs[1], eta[1])
+    dz = eta[2][1] - eta[2][0]
+    dth = eta[1][1] - eta[1][0]
+    iota_all = c.iota(eta[0])
+    nr, nth, nz, nv = npts
+    ev["grid_surfaces_compared"] = 0
+    ev["nodes_compared"] = 0
+    worst = (0.0, 0.0, None)
+    for i in range(nr):
+        bz = float(pg.bz(eta[0][i], iota_all[i], c.R0))
+        for j in range(nv):
+            d = -eta[3][j] * bz * dt
+            ref, leb, amax = ref_step(F0[i, :, :, j], thetaref, eta[1], nz, dz, d, float(iota_all[i]), c.R0)
+            tol = C * rm.EPS * thetaref.kappa * float(np.abs(F0).max()) * (leb * (2 + abs(d) / dz) + leb * amax * 18 / dth)
+            e = float(np.abs(G[i, :, :, j] - ref).max())
+            ev["grid_surfaces_compared"] += 1
+            ev["nodes_compared"] += nth * nz
+            if e > tol and e - tol > worst[0] - worst[1]:
+                worst = (e, tol, (i, j))
+    if worst[2] is not None:
+        key = KEY_RIDX if iota != 0 else "C10:grid-formula"
+        return result(VIOL, cls=[base], events=ev, key=key,
+                      what="FluxSurfaceAdvection.gridStep on process grid %r (iota=%g): surface (r index %d, v index %d) differs from the formula with that surface's own radius/velocity by %.3g (tol %.3g)"
+                      % (nprocs, iota, worst[2][0], worst[2][1], worst[0], worst[1]), witness=wit)
+    return result(HELD, cls=[base], events=ev, n_eval=ev["nodes_compared"], sched=str(hash(w.arrival_signature())))
